@@ -210,9 +210,10 @@ func TestRuleValues(t *testing.T) {
 	rng := rand.New(rand.NewSource(seed()))
 	maxRank := 3
 	bases := shapes(0, maxRank, 3)
+	bases = append(bases, shapes(4, 4, 2)...) // two leading dimensions: the rank-dependent branches of the rules' helpers
 	for _, c := range ruleCases(rng) {
 		for _, b := range bases {
-			if !thorough() && len(b) == 3 && rng.Intn(3) != 0 {
+			if !thorough() && len(b) >= 3 && rng.Intn(3) != 0 {
 				continue
 			}
 			ss, ok := c.shapes(rng, b)
